@@ -13,11 +13,14 @@ variable {Ω : Type}
 /-- What the operation codec must satisfy (proved for the labelled codec below; for the full
     operation layer these are the theorems of C05/C06). `nrm` is what decoding an encoded operation
     gives back (extension ops in opaque form …). -/
-structure CodecLaws (c : OpCodec Ω) (nrm : Ω → Ω) : Prop where
-  decEnc : ∀ op p j, c.enc op p = .ok j → c.dec j = .ok (nrm op, (p : Int))
-  encNrm : ∀ op p j, c.enc op p = .ok j → c.enc (nrm op) p = .ok j
-  ordNrm : ∀ op inc, c.orderOff (nrm op) inc = c.orderOff op inc
-  ordOk : ∀ op p j, c.enc op p = .ok j → ∀ inc, ∃ r, c.orderOff op inc = .ok r
+structure CodecLawsOn (c : OpCodec Ω) (nrm : Ω → Ω) (Good : Ω → Prop) : Prop where
+  decEnc : ∀ op p j, Good op → c.enc op p = .ok j → c.dec j = .ok (nrm op, (p : Int))
+  encNrm : ∀ op p j, Good op → c.enc op p = .ok j → c.enc (nrm op) p = .ok j
+  ordNrm : ∀ op inc, Good op → c.orderOff (nrm op) inc = c.orderOff op inc
+  ordOk : ∀ op p j, Good op → c.enc op p = .ok j → ∀ inc, ∃ r, c.orderOff op inc = .ok r
+
+/-- the laws for every operation -/
+abbrev CodecLaws (c : OpCodec Ω) (nrm : Ω → Ω) : Prop := CodecLawsOn c nrm (fun _ => True)
 
 theorem mapM_ok_getElem {α β ε : Type} (f : α → Except ε β) : ∀ (l : List α) (r : List β), l.mapM f = .ok r →
     r.length = l.length ∧ ∀ i (hi : i < l.length) (hr : i < r.length), f l[i] = .ok r[i] := by
@@ -66,7 +69,8 @@ theorem constrainOffset_nonneg (c : OpCodec Ω) (s : St Ω) (node : Nat) (off w 
 
 /-- **The serialised document is in normal form** (for a store whose hierarchy walk `order` lists
     every node after its parent, root first — `Props.C03.index_sane_nodes` — and a lawful codec). -/
-theorem toSerial_normal [Inhabited Ω] (c : OpCodec Ω) (nrm : Ω → Ω) (laws : CodecLaws c nrm) (s : St Ω)
+theorem toSerial_normal [Inhabited Ω] (c : OpCodec Ω) (nrm : Ω → Ω) (Good : Ω → Prop)
+    (laws : CodecLawsOn c nrm Good) (s : St Ω) (hgood : ∀ i d, getNode s i = .ok d → Good d.op)
     (order : List Nat) (ho : hierarchyOrder s = .ok order)
     (hroot0 : order[0]? = some s.root)
     (hrootp : ∀ p, parentIndex s order s.root = .ok p → p = 0)
@@ -134,7 +138,7 @@ theorem toSerial_normal [Inhabited Ω] (c : OpCodec Ω) (nrm : Ω → Ω) (laws 
           simp at hj; subst hj
           obtain ⟨dk, p, a, b, cc, _⟩ := hper k hk'
           rw [hopAt k hk' dk a, hparAt k hk' p b]
-          exact laws.decEnc dk.op p _ cc
+          exact laws.decEnc dk.op p _ (hgood _ dk a) cc
         · have h0 : 0 < order.length := List.length_pos_iff.mpr hne
           obtain ⟨dk, p, a, b, _, _⟩ := hper 0 h0
           have hr : order[0] = s.root := by
@@ -159,13 +163,13 @@ theorem toSerial_normal [Inhabited Ω] (c : OpCodec Ω) (nrm : Ω → Ω) (laws 
         simp at hj; subst hj
         obtain ⟨dk, p, a, b, cc, _⟩ := hper k hk'
         rw [hopAt k hk' dk a, hparAt k hk' p b]
-        exact laws.encNrm dk.op p _ cc
+        exact laws.encNrm dk.op p _ (hgood _ dk a) cc
       · -- ord
         intro m inc hm
         have hm' : m < order.length := by simp at hm; omega
         obtain ⟨dk, p, a, _, cc, _⟩ := hper m hm'
-        obtain ⟨r, hr⟩ := laws.ordOk dk.op p _ cc inc
-        have : c.orderOff (opAt m) inc = .ok r := by rw [hopAt m hm' dk a, laws.ordNrm, hr]
+        obtain ⟨r, hr⟩ := laws.ordOk dk.op p _ (hgood _ dk a) cc inc
+        have : c.orderOff (opAt m) inc = .ok r := by rw [hopAt m hm' dk a, laws.ordNrm _ _ (hgood _ dk a), hr]
         simp only [ordAt, this]
       · -- metadata
         refine ⟨ns.map (·.2), rfl, by simp, ?_⟩
@@ -261,7 +265,8 @@ theorem fromSerial_toSerial' (c : OpCodec Ω) (d : Doc) (opOf : Nat → Ω) (par
 /-- **JSON fixed point on the model**: serialise, load, serialise again — same nodes, edges and
     metadata.  Hypotheses: a lawful operation codec, and the index-sanity facts of the hierarchy walk
     (proved for every reachable store, `Props.C03.index_sane_nodes`). -/
-theorem json_fixed_point [Inhabited Ω] (c : OpCodec Ω) (nrm : Ω → Ω) (laws : CodecLaws c nrm) (s : St Ω)
+theorem json_fixed_point [Inhabited Ω] (c : OpCodec Ω) (nrm : Ω → Ω) (Good : Ω → Prop)
+    (laws : CodecLawsOn c nrm Good) (s : St Ω) (hgood : ∀ i d, getNode s i = .ok d → Good d.op)
     (order : List Nat) (ho : hierarchyOrder s = .ok order)
     (hroot0 : order[0]? = some s.root)
     (hrootp : ∀ p, parentIndex s order s.root = .ok p → p = 0)
@@ -269,7 +274,7 @@ theorem json_fixed_point [Inhabited Ω] (c : OpCodec Ω) (nrm : Ω → Ω) (laws
     (d : Doc) (h : toSerial c s = .ok d) :
     ∃ s', fromSerial c d = .ok s' ∧
         ∃ d', toSerial c s' = .ok d' ∧ d'.nodes = d.nodes ∧ d'.edges = d.edges ∧ d'.metadata = d.metadata := by
-  obtain ⟨opOf, parOf, ordOf, hn⟩ := toSerial_normal c nrm laws s order ho hroot0 hrootp hearlier d h
+  obtain ⟨opOf, parOf, ordOf, hn⟩ := toSerial_normal c nrm Good laws s hgood order ho hroot0 hrootp hearlier d h
   obtain ⟨s', a, b⟩ := fromSerial_toSerial' c d opOf parOf ordOf hn
   exact ⟨s', a, b⟩
 
